@@ -117,7 +117,7 @@ func (r *reference) resolveRef(cfg *Config, opts *options) (value, error) {
 	}
 	opts.eval.activated(r.Path.String())
 
-	var err Error
+	var err, cyclic Error
 
 	for {
 		var v value
@@ -130,6 +130,9 @@ func (r *reference) resolveRef(cfg *Config, opts *options) (value, error) {
 		if err == nil && v != nil {
 			return v, nil
 		}
+		if err != nil && cyclic == nil && causedByCycle(err) {
+			cyclic = err
+		}
 		// not found in cfg, try the next environment
 
 		if len(env) == 0 {
@@ -140,6 +143,11 @@ func (r *reference) resolveRef(cfg *Config, opts *options) (value, error) {
 		env = env[:len(env)-1]
 	}
 
+	if cyclic != nil {
+		// a reference re-entered on the way is no missing setting: an
+		// environment that does not know the name either changes nothing
+		return nil, cyclic
+	}
 	return nil, err
 }
 
